@@ -108,11 +108,8 @@ for _fn, _arg in (('render', 'tile_request'), ('get_info', 'info_request')):
 # WMS: authorization decision, filtering of the layer list, global / per-layer limits reach the merger and feature info
 # ======================================================================================================================
 WMS = 'mapproxy.service.wms:'
-cls(WMS + 'WMSServer', fields=dict(
-    root_layer='opaque', layers='opaque', tile_layers='opaque', strict='opaque', attribution='opaque', md='opaque',
-    on_error='opaque', concurrent_layer_renderer='opaque', image_formats='opaque', info_types='opaque', srs='opaque',
-    srs_extents='opaque', max_output_pixels='opaque', max_tile_age='opaque', inspire_md='opaque', request_parser='opaque',
-    fi_transformers='opaque'))
+from .c16_limits import WMS_SERVER_FIELDS  # noqa  (one declaration for all modules)
+cls(WMS + 'WMSServer', fields=dict(WMS_SERVER_FIELDS))
 
 
 def _item_is(res_t, key, val, epochs):
